@@ -16,6 +16,7 @@
 (*   fin    the world after StateDB.Finalise(true)                         *)
 (*   exp    the world EvmFrames.tla predicts for the program (from G)      *)
 (*   panic, err                                                            *)
+(*   sweep  (only in re-runs of a gas sweep) which site's gas was replaced *)
 (* A world projection: bal, sto (two slots), code, ex, dead per account    *)
 (* name, and the log list.                                                 *)
 (*                                                                         *)
@@ -32,7 +33,7 @@ VARIABLES l, viol, fired
 mvars == <<l, viol, fired>>
 
 Clauses == {"NoPanic", "WorldEqualsModel", "FailedFrameLeavesNoTrace", "StaticChangesNothing", "ValueConserved",
-            "GasReturnedLeqSupplied"}
+            "GasReturnedLeqSupplied", "ErrorFrameReturnsNoGas"}
 
 MonInit == l = 1 /\ viol = {} /\ fired = [c \in Clauses |-> 0]
 
@@ -101,7 +102,21 @@ GasLeaves(e) == { <<"GasReturnedLeqSupplied", {Kind(e.calls[i])}, l>> :
                      i \in { n \in DOMAIN e.calls : GasJudged(e.calls[n]) /\ GasBad(e.calls[n]) } }
 NGas(e) == Cardinality({ n \in DOMAIN e.calls : GasJudged(e.calls[n]) })
 
-\* --- the model predicts the final world and the fate of every site
+\* --- "(only gas is consumed)": a frame that ends in an error other than REVERT hands no gas back -- the caller continues
+\*     with what it had after paying for the instruction and the forwarded gas.  rev = the callee's last instruction was an
+\*     executed REVERT (such a frame keeps its unused gas).  A creation whose init code finished but whose code deposit
+\*     could not be paid is an error frame too.
+ErrFrame(c) == c.closed /\ c.entered /\ ~c.ok /\ ~c.rev
+NoGasBack(c) == IF IsCreate(c) THEN c.g1 = BigSub(c.g0, c.gin) ELSE c.g1 = c.g0
+ErrGasLeaves(e) == { <<"ErrorFrameReturnsNoGas", {Kind(e.calls[i])}, l>> :
+                        i \in { n \in DOMAIN e.calls : ErrFrame(e.calls[n]) /\ ~NoGasBack(e.calls[n]) } }
+NErr(e) == Cardinality({ n \in DOMAIN e.calls : ErrFrame(e.calls[n]) })
+
+\* --- the model predicts the final world and the fate of every site.  A run of a gas sweep ("sweep" field: the gas
+\*     forwarded to one frame was replaced by a boundary amount) may legitimately end differently from the ample-gas
+\*     prediction; it is compared with the prediction only when every site ended as predicted (then gas played no role
+\*     and the world must be the predicted one); otherwise only the clauses above judge it.
+IsSweep(e) == "sweep" \in DOMAIN e
 Obs(e)  == { <<e.calls[n].site, e.calls[n].ok>> : n \in { k \in DOMAIN e.calls : e.calls[k].closed } }
 Pred(e) == { <<e.exp.frames[n].site, e.exp.frames[n].res = "ok">> : n \in DOMAIN e.exp.frames }
 Proj(w, f, S) == [a \in S |-> w[f][a]]
@@ -113,7 +128,8 @@ WorldDiff(e) ==
        {c \in {"logs"} : e.fin.logs # e.exp.logs} \cup {c \in {"frames"} : Obs(e) # Pred(e)} \cup
        {c \in {"others"} : \E a \in O : e.fin.bal[a] # e.calls[1].pre.bal[a] \/ e.fin.sto[a] # e.calls[1].pre.sto[a]
                                         \/ e.fin.code[a] # e.calls[1].pre.code[a]}
-WorldLeaves(e) == IF WorldDiff(e) # {} THEN { <<"WorldEqualsModel", WorldDiff(e), l>> } ELSE {}
+WorldJudged(e) == ~IsSweep(e) \/ Obs(e) = Pred(e)
+WorldLeaves(e) == IF WorldJudged(e) /\ WorldDiff(e) # {} THEN { <<"WorldEqualsModel", WorldDiff(e), l>> } ELSE {}
 
 \* every failing clause is kept; of several failures with the same clause and discriminator only the first line is
 \* kept (the report is per signature)
@@ -123,8 +139,10 @@ RunEv(e) ==
    IF e.panic # "" \/ Len(e.calls) = 0
    THEN /\ viol' = viol \cup Fresh({ <<"NoPanic", {"panic"}, l>> })
         /\ fired' = [fired EXCEPT !["NoPanic"] = @ + 1]
-   ELSE /\ viol' = viol \cup Fresh(FailedLeaves(e) \cup StaticLeaves(e) \cup ValueBad(e) \cup GasLeaves(e) \cup WorldLeaves(e))
-        /\ fired' = [fired EXCEPT !["NoPanic"] = @ + 1, !["WorldEqualsModel"] = @ + 1, !["ValueConserved"] = @ + 1,
+   ELSE /\ viol' = viol \cup Fresh(FailedLeaves(e) \cup StaticLeaves(e) \cup ValueBad(e) \cup GasLeaves(e) \cup ErrGasLeaves(e)
+                                     \cup WorldLeaves(e))
+        /\ fired' = [fired EXCEPT !["NoPanic"] = @ + 1, !["WorldEqualsModel"] = @ + (IF WorldJudged(e) THEN 1 ELSE 0),
+                                  !["ValueConserved"] = @ + 1, !["ErrorFrameReturnsNoGas"] = @ + NErr(e),
                                   !["FailedFrameLeavesNoTrace"] = @ + NFailed(e), !["StaticChangesNothing"] = @ + NStatic(e),
                                   !["GasReturnedLeqSupplied"] = @ + NGas(e)]
 
